@@ -70,21 +70,24 @@ var c16Files = Files{
 	"p_prevonce.vuego":              `<div v-for="i in three"><script v-once v-pre>QA</script><b v-pre v-once>QB</b></div><template include="pv_c.vuego"></template><template include="pv_c.vuego"></template>`,
 	"pv_c.vuego":                    `<style v-pre v-once>QC</style><i>c</i>`,
 	"p_top.vuego":                   `<b v-once>O1</b><p>x</p><b v-once>O2</b><b v-once>O3</b>`,
-	"p_for.vuego":                   `<div v-for="i in three"><b v-once>O1</b><i>{{ i }}</i><u v-once>O2</u></div>`,
-	"p_forself.vuego":               `<b v-for="i in three" v-once>O1</b><i v-for="j in three">I</i>`,
-	"p_inc1.vuego":                  `<template include="a.vuego"></template>`,
-	"p_inc2.vuego":                  `<template include="a.vuego"></template><template include="a.vuego"></template>`,
-	"p_inc3.vuego":                  `<template include="a.vuego"></template><p v-once>O1</p><template include="a.vuego"></template><template include="a.vuego"></template>`,
-	"p_ab.vuego":                    `<template include="a.vuego"></template><template include="b.vuego"></template><template include="a.vuego"></template><b v-once>O1</b>`,
-	"p_incfor.vuego":                `<div v-for="i in three"><template include="a.vuego"></template></div>`,
-	"p_nested.vuego":                `<template include="ac.vuego"></template><template include="ac.vuego"></template><template include="c.vuego"></template>`,
-	"p_slot1.vuego":                 `<template include="s1.vuego"><b v-once>OS</b></template><b v-once>O1</b>`,
-	"p_slot2.vuego":                 `<template include="s2.vuego"><b v-once>OS</b></template>`,
-	"p_slotfor.vuego":               `<template include="sf.vuego"><template v-slot><b v-once>OS</b></template></template>`,
-	"p_if.vuego":                    `<div v-if="t"><b v-once>O1</b></div><div v-else><b v-once>O2</b></div><b v-if="t" v-once>O3</b>`,
-	"p_lay.vuego":                   "---\nlayout: once_lay\n---\n<b v-once>O1</b><template include=\"a.vuego\"></template><template include=\"a.vuego\"></template>",
-	"layouts/once_lay.vuego":        "---\nlayout: once_outer\n---\n<main><b v-once>OL</b><template include=\"a.vuego\"></template><div v-for=\"i in three\"><u v-once>OL2</u></div><section v-html=\"content\"></section></main>",
-	"layouts/once_outer.vuego":      "<html><body><b v-once>OO</b><template include=\"a.vuego\"></template><template include=\"a.vuego\"></template><div v-html=\"content\"></div></body></html>",
+	// renders that fail after they have passed v-once elements (of the page, of components other pages include too)
+	"p_failinc.vuego":          `<b v-once>O1</b><template include="a.vuego"></template><template include="b.vuego"></template><div v-for="i in three"><u v-once>O2</u></div><template include="no_such_file.vuego"></template>`,
+	"p_failtop.vuego":          `<b v-once>O1</b><p>x</p><b v-once>O2</b><template include="ac.vuego"></template><p>{{ t | nosuchfilter }}</p><b v-once>O3</b>`,
+	"p_for.vuego":              `<div v-for="i in three"><b v-once>O1</b><i>{{ i }}</i><u v-once>O2</u></div>`,
+	"p_forself.vuego":          `<b v-for="i in three" v-once>O1</b><i v-for="j in three">I</i>`,
+	"p_inc1.vuego":             `<template include="a.vuego"></template>`,
+	"p_inc2.vuego":             `<template include="a.vuego"></template><template include="a.vuego"></template>`,
+	"p_inc3.vuego":             `<template include="a.vuego"></template><p v-once>O1</p><template include="a.vuego"></template><template include="a.vuego"></template>`,
+	"p_ab.vuego":               `<template include="a.vuego"></template><template include="b.vuego"></template><template include="a.vuego"></template><b v-once>O1</b>`,
+	"p_incfor.vuego":           `<div v-for="i in three"><template include="a.vuego"></template></div>`,
+	"p_nested.vuego":           `<template include="ac.vuego"></template><template include="ac.vuego"></template><template include="c.vuego"></template>`,
+	"p_slot1.vuego":            `<template include="s1.vuego"><b v-once>OS</b></template><b v-once>O1</b>`,
+	"p_slot2.vuego":            `<template include="s2.vuego"><b v-once>OS</b></template>`,
+	"p_slotfor.vuego":          `<template include="sf.vuego"><template v-slot><b v-once>OS</b></template></template>`,
+	"p_if.vuego":               `<div v-if="t"><b v-once>O1</b></div><div v-else><b v-once>O2</b></div><b v-if="t" v-once>O3</b>`,
+	"p_lay.vuego":              "---\nlayout: once_lay\n---\n<b v-once>O1</b><template include=\"a.vuego\"></template><template include=\"a.vuego\"></template>",
+	"layouts/once_lay.vuego":   "---\nlayout: once_outer\n---\n<main><b v-once>OL</b><template include=\"a.vuego\"></template><div v-for=\"i in three\"><u v-once>OL2</u></div><section v-html=\"content\"></section></main>",
+	"layouts/once_outer.vuego": "<html><body><b v-once>OO</b><template include=\"a.vuego\"></template><template include=\"a.vuego\"></template><div v-html=\"content\"></div></body></html>",
 }
 
 var c16Progs = []c16Prog{
@@ -122,7 +125,12 @@ var c16Progs = []c16Prog{
 	{"upper", "p_upper.vuego", map[string]int{"UA": 1, "UB": 1, "UC": 1, "UD": 1}, nil, "", nil},     // attribute names are case-insensitive
 	{"prevonce", "p_prevonce.vuego", map[string]int{"QA": 1, "QB": 1, "QC": 1}, nil, "", nil},        // v-pre keeps the content as written; the element is still emitted once
 	{"lay", "p_lay.vuego", map[string]int{"O1": 1, "OA": 1}, map[string]int{"OL": 1, "OL2": 1, "OO": 1, "OA": 2}, "", nil},
+	{"failinc", "p_failinc.vuego", map[string]int{}, nil, "", nil},
+	{"failtop", "p_failtop.vuego", map[string]int{}, nil, "", nil},
 }
+
+// c16Fails: programs whose render fails (what they leave behind must not reach the next render)
+var c16Fails = map[string]bool{"failinc": true, "failtop": true}
 
 func c16Prog_(name string) *c16Prog {
 	for i := range c16Progs {
@@ -221,6 +229,13 @@ func (c *c16Case) Run(ctx *core.Ctx) {
 		if p.Want == nil && !withLayout {
 			continue // the program only has a meaning through its layout
 		}
+		if c16Fails[p.Name] {
+			if err == nil {
+				ctx.Violation("no-error", where, trig, fmt.Sprintf("seq %v: the render was to fail", c.Seq[:i+1]))
+			}
+			ctx.State(1)
+			continue
+		}
 		if err != nil {
 			ctx.Violation("render-error", where, trig, fmt.Sprintf("seq %v: %v", c.Seq[:i+1], err))
 			return
@@ -262,7 +277,7 @@ func init() {
 	core.Register(&core.Check{
 		ID:    "C16",
 		Level: "model_checking",
-		Rule: "34 placements of 1-4 v-once elements (v-once nested inside v-once at top level, in a loop and in two components included from a loop, in a component whose root is a <template> tag (inside, on and after it), on v-else / v-else-if members and on the v-else of an empty v-for inside a loop, together with v-if, together with v-for and a v-if that is false for the first item, on chain members that are loops themselves, in slot content a page hands to its layout (one and two slot templates), top level, inside v-for, on the looped element itself, in a component included 1..3 times, in two different components, in two components whose files have the same name in different directories, in a component included from a loop, nested components, slot content used once / twice / in a loop, v-if branches, page + two layouts each including the same component, twelve v-once elements in one file (IDs of more than one digit), a string template rendered on a template object that has loaded the very file the string includes, v-once together with v-pre (in a loop, in a component included twice), the directive spelled in capitals (V-ONCE, v-Once) in two components, elements a node processor marks v-once in its pre-processing step (the page's nodes: components are not pre-processed)) x 7 entry points (Load+Render, RenderFile, Vue.Render, Vue.RenderFragment, RenderString/Byte/Reader) x every history of <=L renders on one long-lived engine; " +
+		Rule: "36 programs: 34 placements of 1-4 v-once elements (v-once nested inside v-once at top level, in a loop and in two components included from a loop, in a component whose root is a <template> tag (inside, on and after it), on v-else / v-else-if members and on the v-else of an empty v-for inside a loop, together with v-if, together with v-for and a v-if that is false for the first item, on chain members that are loops themselves, in slot content a page hands to its layout (one and two slot templates), top level, inside v-for, on the looped element itself, in a component included 1..3 times, in two different components, in two components whose files have the same name in different directories, in a component included from a loop, nested components, slot content used once / twice / in a loop, v-if branches, page + two layouts each including the same component, twelve v-once elements in one file (IDs of more than one digit), a string template rendered on a template object that has loaded the very file the string includes, v-once together with v-pre (in a loop, in a component included twice), the directive spelled in capitals (V-ONCE, v-Once) in two components, elements a node processor marks v-once in its pre-processing step (the page's nodes: components are not pre-processed)), and two pages whose render fails - a missing include, an unknown filter - after v-once elements of the page and of shared components have been passed, x 7 entry points (Load+Render, RenderFile, Vue.Render, Vue.RenderFragment, RenderString/Byte/Reader) x every history of <=L renders on one long-lived engine; " +
 			"oracle: every marked source element occurs exactly once per render (per link of a layout chain), unreached ones zero times. states = renders checked; non-trivial = all",
 		Bounds:      map[string]string{"quick": "L=2 (all ordered pairs of programs)", "thorough": "L=3 (all ordered triples)"},
 		Assumptions: []string{"markers are counted textually as >MARK< in the output"},
